@@ -644,9 +644,15 @@ class MinimizerScipyOptimize(MinimizerBase):
             _par = np.linspace(start=_bound_low, stop=_bound_high, num=size, endpoint=True)
 
             _y = np.zeros(size)
-            self._x0 = self._par_val
-            for i in range(size):
-                _y[i] = self._calc_fun_with_constraints([{"type": "eq", "fun": lambda x: x[_par_id] - _par[i]}], continuous_x0=True)
+            # work outwards from the minimum on either side, each point starting from the solution of its inner neighbour
+            # (starting the chain at the far end can lock all points onto a side branch found there)
+            _par_min = self._par_val[_par_id]
+            _indices_below = [_i for _i in range(size) if _par[_i] < _par_min][::-1]
+            _indices_above = [_i for _i in range(size) if _par[_i] >= _par_min]
+            for _indices in (_indices_above, _indices_below):
+                self._x0 = np.array(self._par_val)
+                for i in _indices:
+                    _y[i] = self._calc_fun_with_constraints([{"type": "eq", "fun": lambda x: x[_par_id] - _par[i]}], continuous_x0=True)
         finally:
             self._load_state()  # return to the minimum, also if the calculation fails
         return np.asarray([_par, _y - _y_offset]), _arrow_specs
